@@ -40,7 +40,12 @@ MANIFEST = {
             'values/positions must issue identical sequences of _reshare/output/random_bits/_random(s)/trunc calls with identical '
             'sizes (remove/index excluded: they make presence public by design, like Python\'s ValueError; secure-number '
             'indices on secfld excluded: to_bits uses rejection sampling with public coins). '
-            'Single-party runs only (m=1). secfxp lists use non-integral elements only (mixed integrality is finding F-C03 of '
+            'Property streams are single-party (m=1, synchronous) except the concurrency stream (m=3, t=1: operations launched without '
+            'awaiting amid 10-30 unrelated secure multiplications/comparisons under RandomOrder/ReverseLinks/Hold schedules) and the '
+            'aliasing stream (m=1 asynchronous -M1 and m=3: call, mutate receiver/argument list/index vector in place, then await; '
+            'expected = Python list semantics in program order; seclist.remove defers both its read and its write: finding F-C31-5). '
+            'On two EMPTY lists ==, != (and count, contains) return public Python values, not secure objects: the values are '
+            'Python\'s and depend on the public lengths only, covered as an ordinary case (types recorded in the evidence). secfxp lists use non-integral elements only (mixed integrality is finding F-C03 of '
             'another property). Out-of-range secret indices are excluded (valid_key); public out-of-range ints are checked to '
             'raise IndexError. Extended slices, GF(2^8) and sort are checked against the Python list only.',
     'technique': 'Coq refinement proof (list induction, strong induction for the divide-and-conquer closures) + vm_compute '
@@ -952,6 +957,483 @@ def extreme_history(rng, ti, xs, items, ranged):
     return cops
 
 
+
+# ------------------------------------------------------------------------------------------
+# multi-party streams in the in-process simulator (lib/sim.py): concurrency and aliasing
+
+class SimWatchdog(Exception):
+    pass
+
+
+class PerCasePolicy:
+    """one fresh delivery policy per case (re-armed when the last party finishes a case); a case that needs more
+    than `limit` scheduler rounds is declared hanging"""
+
+    def __init__(self, factory, limit):
+        self.factory = factory
+        self.k = 0
+        self.cur = factory(0)
+        self.limit = limit
+        self.rounds = 0
+
+    def tick(self):
+        self.k += 1
+        self.cur = self.factory(self.k)
+        self.rounds = 0
+
+    def deliver(self, net):
+        self.rounds += 1
+        if self.rounds > self.limit:
+            raise SimWatchdog()
+        return self.cur.deliver(net)
+
+
+def sim_batch(m, t, cases, case_coro, seed, factory, idle_limit=2500):
+    """run cases in order in one simulator; at the first case that does not complete the simulator is discarded
+    and the rest continues in a fresh one.  Result per case: value agreed by all parties | ('DIVERGE', values) |
+    ('HANG', detail) | ('EXC', text)"""
+    from lib.sim import Sim
+    results = [None] * len(cases)
+    i = 0
+    while i < len(cases):
+        sim = Sim(m, t, seed=seed + i, track_tasks=False, log_messages=False)
+        errs = []
+        sim.loop.set_exception_handler(lambda loop, c: errs.append(repr(c.get('exception'))[:160]))
+        try:
+            sim.start()
+            if not sim.started:
+                raise RuntimeError('simulator start failed')
+            prog_res = [[None] * len(cases) for _ in range(m)]
+            start = i
+            pol = PerCasePolicy(lambda k, start=start: factory(start + k), 4000 if m == 1 else 400000)
+
+            async def prog(mpc, mods, pid, start=start, prog_res=prog_res, pol=pol):
+                for j in range(start, len(cases)):
+                    try:
+                        r = await case_coro(mpc, mods, pid, cases[j])
+                    except Exception as e:   # noqa
+                        r = ('EXC', type(e).__name__ + ': ' + str(e)[:80])
+                    prog_res[pid][j] = ('ok', r)
+                    if pid == m - 1:
+                        pol.tick()
+                return True
+            try:
+                sim.run(prog, pol, idle_limit=idle_limit, max_rounds=10**9)
+            except SimWatchdog:
+                pass
+            for j in range(start, len(cases)):
+                col = [prog_res[k][j] for k in range(m)]
+                if all(c is not None for c in col):
+                    vals = [c[1] for c in col]
+                    results[j] = vals[0] if all(v == vals[0] for v in vals) else ('DIVERGE', vals)
+                    i = j + 1
+                else:
+                    exc = [e for e in errs if 'CancelledError' not in e and 'InvalidState' not in e]
+                    results[j] = ('HANG', {'parties_done': [c is not None for c in col], 'task_exceptions': exc[:3]})
+                    i = j + 1
+                    break
+        finally:
+            sim.close()
+    return results
+
+
+def _sim_key(mpc, ti, key, secindex, m):
+    """secret index object from genuinely shared values"""
+    T = ti.T
+    bits = lambda u, j: mpc.input([T(b) for b in u], senders=j % m) if u else []    # noqa: E731
+    if key[0] == 'num':
+        return mpc.input(T(key[1]), senders=1 % m)
+    if key[0] == 'vec':
+        return bits(key[1], 2)
+    return secindex(bits(key[2], 1), offset=key[1], sectype=T)
+
+
+def _sim_apply(mpc, mods, ti, s, c, m, keyobj=None, ysobj=None):
+    """launch ONE seclist operation without awaiting anything; returns (s', kind, handle):
+    kind 'fut' (await it), 'elem'/'small'/'list' (handle = mpc.output future), None"""
+    seclist = mods['mpyc.seclists'].seclist
+    secindex = mods['mpyc.seclists'].secindex
+    T = ti.T
+    op = c['op']
+    sh = lambda v, j=1: mpc.input(T(ti.to_impl(v)), senders=j % m)     # noqa: E731
+    key = keyobj if keyobj is not None else (_sim_key(mpc, ti, c['key'], secindex, m) if 'key' in c else None)
+    ys = ysobj if ysobj is not None else (mpc.input([T(ti.to_impl(y)) for y in c['ys']], senders=2 % m) if c.get('ys') else [])
+    if op == 'remove':
+        return s, 'fut', s.remove(sh(c['v']))
+    if op in ('count', 'contains', 'find', 'index'):
+        r = getattr(s, op)(sh(c['v']))
+        return s, 'small', (r if isinstance(r, (bool, int)) else mpc.output(r))
+    if op == 'sort':
+        s.sort()
+        return s, None, None
+    if op == 'reverse':
+        s.reverse()
+        return s, None, None
+    if op == 'get':
+        return s, 'elem', mpc.output(s[key])
+    if op == 'pop':
+        return s, 'elem', mpc.output(s.pop(key))
+    if op == 'set':
+        s[key] = sh(c['v'])
+        return s, None, None
+    if op == 'del':
+        del s[key]
+        return s, None, None
+    if op == 'ins':
+        s.insert(key, sh(c['v']))
+        return s, None, None
+    if op == 'append':
+        s.append(sh(c['v']))
+        return s, None, None
+    if op == 'extend':
+        s.extend(ys)
+        return s, None, None
+    if op == 'addr':
+        return s + ys, None, None
+    if op == 'copy':
+        t = s.copy()
+        return t, 'list', (mpc.output(list(t)) if len(t) else [])
+    if op == 'getslice':
+        t = s[slice(c['start'], c['stop'])]
+        return s, 'list', (mpc.output(list(t)) if len(t) else [])
+    if op == 'setslice':
+        s[slice(c['start'], c['stop'])] = ys
+        return s, None, None
+    if op == 'cmp':
+        x, y = (seclist(ys, T), s) if c['swap'] else (s, ys)
+        cc = c['c']
+        r = (x < y if cc == 'lt' else x <= y if cc == 'le' else x == y if cc == 'eq' else
+             x != y if cc == 'ne' else x >= y if cc == 'ge' else x > y)
+        return s, 'small', (r if isinstance(r, (bool, int)) else mpc.output(r))
+    raise RuntimeError('unknown op ' + op)
+
+
+async def _sim_collect(ti, kind, h):
+    if kind is None:
+        return None
+    if kind == 'fut':
+        await h
+        return None
+    if isinstance(h, (bool, int)):
+        return ('Z', int(h))
+    v = await h if not isinstance(h, list) else h
+    if kind == 'elem':
+        return ('Z', ti.canon(v))
+    if kind == 'small':
+        return ('Z', int(v))
+    return ('L', [ti.canon(x) for x in v])
+
+
+def _mk_ti(mpc, d):
+    return TI(mpc, d['kind'], d.get('p'))
+
+
+async def conc_coro(mpc, mods, pid, case):
+    """operations on two lists launched without awaiting while unrelated secure work is issued and awaited; a pending
+    remove() is awaited only before the next operation on the SAME list (or at the end), so removes on the two lists
+    overlap with each other and with the unrelated work"""
+    m = len(mpc.parties)
+    seclist = mods['mpyc.seclists'].seclist
+    ti = _mk_ti(mpc, case)
+    T = ti.T
+    S = [seclist(mpc.input([T(ti.to_impl(c)) for c in init], senders=w % m) if init else [], T)
+         for w, init in enumerate(case['inits'])]
+    cvals = [(k * 7) % 11 - 5 for k in range(12)]
+    cx = mpc.input([T(v) for v in cvals], senders=0)            # operands of the unrelated work, shared once
+    pend = [None, None]
+    handles = []
+    q = 0
+    chat_bad = None
+    for seg in case['segs']:
+        w = seg['w']
+        if pend[w] is not None:
+            await pend[w]
+            pend[w] = None
+        S[w], kind, h = _sim_apply(mpc, mods, ti, S[w], seg, m)
+        if kind == 'fut':
+            pend[w] = h
+            handles.append((None, None))
+        else:
+            handles.append((kind, h))
+        for _ in range(seg['chat']):
+            a, b = cvals[q % 12], cvals[(q * 5 + 1) % 12]
+            x, y = cx[q % 12], cx[(q * 5 + 1) % 12]
+            if q % 4 == 0:
+                got, want = int(await mpc.output(x + y)), (a + b) % ti.p if ti.kind == 'fld' else a + b
+            elif ti.kind != 'fld' and q % 4 == 2:
+                got, want = int(await mpc.output(x < y)), int(a < b)
+            else:
+                got, want = int(await mpc.output(x * y)), (a * b) % ti.p if ti.kind == 'fld' else a * b
+            if got != want and chat_bad is None:
+                chat_bad = [q, got, want]
+            q += 1
+    for w in (0, 1):
+        if pend[w] is not None:
+            await pend[w]
+    outs = []
+    for kind, h in handles:
+        outs.append(await _sim_collect(ti, kind, h))
+    finals = [([ti.canon(v) for v in await mpc.output(list(s))] if len(s) else []) for s in S]
+    return (chat_bad, outs, finals)
+
+
+def gen_conc_case(rng, kinds):
+    d = dict(rng.choice(kinds))
+    ti_pool = d.pop('pool')
+    inits = [[rng.choice(ti_pool) for _ in range(rng.randrange(2, 6))] for _ in (0, 1)]
+    refs = [list(x) for x in inits]
+    segs = []
+    ops = ['remove'] * 8 + ['index', 'find', 'count', 'contains', 'ins', 'ins', 'get', 'pop', 'set', 'del']
+    if d['kind'] != 'fld':
+        ops += ['sort']
+    for k in range(rng.randrange(3, 7)):
+        op = rng.choice(ops)
+        w = k % 2 if rng.random() < 0.8 else rng.randrange(2)
+        ref = refs[w]
+        c = {'op': op, 'w': w, 'chat': rng.choice([2, 4, 6, 10, 15, 20, 30])}
+        if op in ('remove', 'index'):
+            if not ref:
+                continue
+            c['v'] = rng.choice(ref)
+        elif op in ('find', 'count', 'contains'):
+            c['v'] = rng.choice(ref) if ref and rng.random() < 0.7 else rng.choice(ti_pool)
+        elif op in ('ins', 'get', 'pop', 'set', 'del'):
+            N = len(ref) + 1 if op == 'ins' else len(ref)
+            if N == 0 or (op == 'ins' and len(ref) >= 7):
+                continue
+            a = rng.randrange(N)
+            c['key'] = rng.choice([['num', a], ['vec', unit(a, N)]])
+            if op in ('ins', 'set'):
+                c['v'] = rng.choice(ti_pool)
+        segs.append(c)
+        refs[w], _ = _oracle_len(ref, c)
+    d.update(inits=inits, segs=segs)
+    return d
+
+
+def conc_expected(case):
+    class _T:
+        p = case.get('p')
+        red = staticmethod((lambda z: z % case['p']) if case['kind'] == 'fld' else (lambda z: z))
+    refs = [list(x) for x in case['inits']]
+    outs = []
+    for c in case['segs']:
+        refs[c['w']], o = oracle_step(_T, refs[c['w']], c)
+        outs.append(o)
+    return (None, outs, refs)
+
+
+def concurrency_stream(ctx):
+    """m=3, t=1: remove/index/find/count/contains/sort/insert/get/pop/set/del with secret index LAUNCHED without awaiting
+    while 10-30 unrelated secure multiplications/comparisons are issued and awaited, under RandomOrder / ReverseLinks /
+    Hold schedules; all parties must finish, agree, and match the Python list."""
+    import random as _random
+    from lib.sim import RandomOrder, ReverseLinks, Hold
+    rng = ctx.rng
+    kinds = [{'kind': 'int', 'pool': [-3, -2, -1, 0, 1, 2, 3, 4]},
+             {'kind': 'int', 'pool': [-3, -2, -1, 0, 1, 2, 3, 4]},
+             {'kind': 'fld', 'p': 101, 'pool': [0, 1, 2, 3, 4, 5, 99, 100]}]
+    cases = [gen_conc_case(rng, kinds) for _ in range(ctx.n(60, 300))]
+    cases = [c for c in cases if c['segs']]
+    names = ['RandomOrder', 'ReverseLinks', 'Hold', 'RandomOrder']
+
+    def factory(k, base=ctx.seed * 7907 + 5):
+        nm = names[k % len(names)]
+        if nm == 'RandomOrder':
+            return RandomOrder(_random.Random(base + k))
+        if nm == 'ReverseLinks':
+            return ReverseLinks()
+        return Hold({(0, 1), (2, 0), (1, 2)}, 40)
+    res = sim_batch(3, 1, cases, conc_coro, ctx.seed + 311, factory)
+    nbad = 0
+    for k, (case, got) in enumerate(zip(cases, res)):
+        want = conc_expected(case)
+        key = {'concurrent': case, 'policy': names[k % len(names)]}
+        ctx.case(key, nontrivial=True, kind='concurrent m=3 ' + names[k % len(names)])
+        g = got
+        if isinstance(g, tuple) and len(g) == 3 and not (isinstance(g[0], str)):
+            g = (g[0], [tuple(o) if isinstance(o, (list, tuple)) else o for o in g[1]], [list(x) for x in g[2]])
+        if g != want:
+            nbad += 1
+            what = g[0] if isinstance(g, tuple) and isinstance(g[0], str) else 'WRONG'
+            ctx.violation('concurrent-history m=3 %s ops=%s policy=%s' % (what, '+'.join(c['op'] for c in case['segs']), names[k % len(names)]),
+                          {'case': case, 'policy': names[k % len(names)], 'got': str(got)[:800], 'want': str(want)[:800]})
+    ctx.extra['concurrent_histories_m3'] = len(cases)
+    ctx.log('concurrency stream m=3: %d histories, %d bad' % (len(cases), nbad))
+
+
+# ---- aliasing: call, mutate the receiver / the argument container in place, then await
+
+SELF_MUTS = ('reverse', 'set0', 'del0', 'ins0')
+ARG_MUTS = ('reverse', 'swap_ends', 'del0', 'clear')
+
+
+def _mutate_ref(ref, mut, alt):
+    if mut == 'reverse':
+        ref.reverse()
+    elif mut == 'set0':
+        ref[0] = alt
+    elif mut == 'del0':
+        del ref[0]
+    elif mut == 'ins0':
+        ref.insert(0, alt)
+
+
+async def alias_coro(mpc, mods, pid, case):
+    m = len(mpc.parties)
+    seclist = mods['mpyc.seclists'].seclist
+    secindex = mods['mpyc.seclists'].secindex
+    ti = _mk_ti(mpc, case)
+    T = ti.T
+    c = case['op']
+    s = seclist(mpc.input([T(ti.to_impl(v)) for v in case['init']], senders=0) if case['init'] else [], T)
+    alt = mpc.input(T(ti.to_impl(case['alt'])), senders=1 % m)
+    keyobj = _sim_key(mpc, ti, c['key'], secindex, m) if 'key' in c else None
+    ysobj = mpc.input([T(ti.to_impl(y)) for y in c['ys']], senders=2 % m) if c.get('ys') else ([] if 'ys' in c else None)
+    s0 = s
+    s, kind, h = _sim_apply(mpc, mods, ti, s, c, m, keyobj=keyobj, ysobj=ysobj)
+    mut = case['mut']
+    if case['target'] == 'self':
+        tgt = s0
+        if mut == 'reverse':
+            tgt.reverse()
+        elif mut == 'set0':
+            tgt[0] = alt
+        elif mut == 'del0':
+            del tgt[0]
+        else:
+            tgt.insert(0, alt)
+    else:
+        tgt = ysobj if case['target'] == 'ys' else (keyobj.value if isinstance(keyobj, secindex) else keyobj)
+        if mut == 'reverse':
+            tgt.reverse()
+        elif mut == 'swap_ends':
+            tgt[0], tgt[-1] = tgt[-1], tgt[0]
+        elif mut == 'del0':
+            del tgt[0]
+        else:
+            tgt.clear()
+    out = await _sim_collect(ti, kind, h)
+    final = [ti.canon(v) for v in await mpc.output(list(s))] if len(s) else []
+    recv = [ti.canon(v) for v in await mpc.output(list(s0))] if len(s0) else []
+    return (out, final, recv)
+
+
+def gen_alias_case(rng, kinds):
+    d = dict(rng.choice(kinds))
+    pool = d.pop('pool')
+    n = rng.randrange(2, 6)
+    init = [rng.choice(pool[:4]) for _ in range(n)]
+    ops = ['remove', 'remove', 'remove', 'count', 'contains', 'find', 'index', 'get', 'set', 'del', 'ins', 'pop',
+           'extend', 'addr', 'copy', 'getslice', 'setslice', 'cmp', 'cmp', 'append', 'reverse']
+    if d['kind'] != 'fld':
+        ops.append('sort')
+    op = rng.choice(ops)
+    c = {'op': op}
+    targets = ['self']
+    if op in ('remove', 'index'):
+        c['v'] = rng.choice(init)
+    elif op in ('count', 'contains', 'find'):
+        c['v'] = rng.choice(init + pool)
+    elif op in ('get', 'set', 'del', 'ins', 'pop'):
+        N = n + 1 if op == 'ins' else n
+        a = rng.randrange(N)
+        kk = rng.choice(['num', 'vec', 'vec', 'sec'])
+        if kk == 'num':
+            c['key'] = ['num', a]
+        elif kk == 'vec':
+            c['key'] = ['vec', unit(a, N)]
+            targets.append('key')
+        else:
+            off = rng.randrange(a + 1)
+            c['key'] = ['sec', off, unit(a - off, N - off)]
+            if N - off >= 1:
+                targets.append('key')
+        if op in ('set', 'ins'):
+            c['v'] = rng.choice(pool)
+    elif op in ('extend', 'addr', 'setslice'):
+        c['ys'] = [rng.choice(pool) for _ in range(rng.randrange(1, 4))]
+        targets.append('ys')
+        if op == 'setslice':
+            c['start'], c['stop'] = rng.randrange(0, n), rng.randrange(0, n + 1)
+    elif op == 'getslice':
+        c['start'], c['stop'] = rng.randrange(0, n), rng.randrange(0, n + 1)
+    elif op == 'cmp':
+        ys = list(init)
+        if rng.random() < 0.6:
+            ys[rng.randrange(n)] = rng.choice(pool)
+        if rng.random() < 0.3:
+            ys = ys[:rng.randrange(1, n + 1)]
+        c.update(c=rng.choice(CMPS if d['kind'] != 'fld' else ('eq', 'ne')), swap=False, ys=ys)
+        targets.append('ys')
+    elif op == 'append':
+        c['v'] = rng.choice(pool)
+    target = rng.choice(targets)
+    mut = rng.choice(SELF_MUTS if target == 'self' else ARG_MUTS)
+    d.update(init=init, op=c, target=target, mut=mut, alt=rng.choice(pool))
+    return d
+
+
+def alias_expected(case):
+    """Python list semantics in program order: the operation acts on the values at call time, then the
+    mutation of the receiver happens; a mutation of the argument container afterwards is irrelevant"""
+    class _T:
+        red = staticmethod((lambda z: z % case['p']) if case['kind'] == 'fld' else (lambda z: z))
+    c = case['op']
+    ref0 = list(case['init'])
+    ref, out = oracle_step(_T, ref0, c)
+    newobj = c['op'] in ('addr', 'copy')          # result is a NEW list; the receiver keeps its contents
+    recv = list(case['init']) if newobj else ref
+    if c['op'] == 'copy':
+        pass
+    if case['target'] == 'self':
+        _mutate_ref(recv, case['mut'], case['alt'])
+    final = ref if newobj else recv
+    if c['op'] == 'copy':
+        out = ('L', list(case['init']))
+    return (out, final, recv)
+
+
+def aliasing_stream(ctx):
+    """every seclist operation: call (nothing awaited), mutate the seclist or the argument list / index vector in place,
+    then await; m=1 in asynchronous mode (-M1) and m=3; expected = Python list semantics at call time"""
+    import random as _random
+    from lib.sim import Fifo, RandomOrder
+    rng = ctx.rng
+    kinds = [{'kind': 'int', 'pool': [-3, -2, -1, 0, 1, 2, 3, 4]},
+             {'kind': 'int', 'pool': [-3, -2, -1, 0, 1, 2, 3, 4]},
+             {'kind': 'fld', 'p': 101, 'pool': [0, 1, 2, 3, 4, 5, 99, 100]}]
+    for (m, t) in ((1, 0), (3, 1)):
+        # the audited late read of seclist.remove (harness/alias_audit.md), always included
+        cases = [{'kind': 'int', 'init': [1, 2, 3, 2], 'op': {'op': 'remove', 'v': 2}, 'target': 'self', 'mut': mu, 'alt': 7}
+                 for mu in SELF_MUTS]
+        while len(cases) < ctx.n(45, 400):
+            c = gen_alias_case(rng, kinds)
+            try:
+                alias_expected(c)
+            except (IndexError, ValueError):
+                continue
+            cases.append(c)
+        fac = (lambda k: Fifo()) if m == 1 else (lambda k: (Fifo() if k % 2 else RandomOrder(_random.Random(ctx.seed * 31 + k))))
+        res = sim_batch(m, t, cases, alias_coro, ctx.seed + 977 + m, fac, idle_limit=1500)
+        nbad = 0
+        for case, got in zip(cases, res):
+            want = alias_expected(case)
+            ctx.case({'aliasing': case, 'm': m}, nontrivial=True, kind='aliasing m=%d %s' % (m, case['op']['op']))
+            g = got
+            if isinstance(g, tuple) and len(g) == 3 and not isinstance(g[0], str):
+                g = (tuple(g[0]) if isinstance(g[0], (list, tuple)) else g[0], list(g[1]), list(g[2]))
+                if g[0] is not None and g[0][0] == 'L':
+                    g = (('L', list(g[0][1])), g[1], g[2])
+            if g != want:
+                nbad += 1
+                ctx.violation('aliasing seclist.%s mutation=%s target=%s m=%d' % (case['op']['op'], case['mut'], case['target'], m),
+                              {'case': case, 'm': m, 'got (result, final list, receiver)': str(got)[:600], 'want': str(want)[:600],
+                               'program': 'r = op(s, args)  # nothing awaited; <mutate target in place>; await r; open'})
+        ctx.extra['aliasing_cases_m%d' % m] = len(cases)
+        ctx.log('aliasing stream m=%d: %d cases, %d differ from call-time semantics' % (m, len(cases), nbad))
+
+
 # ------------------------------------------------------------------------------------------
 
 def run(ctx):
@@ -1220,6 +1702,14 @@ def run(ctx):
     ctx.extra['shape_twin_histories'] = ntw
     ctx.extra['public_typed_results_on_empty_lists'] = sum(t.public_results for t in types)
 
+    # ---- multi-party simulator streams (run last: the simulator replaces the event loop and the mpyc modules)
+    try:
+        concurrency_stream(ctx)
+        aliasing_stream(ctx)
+    finally:
+        import logging as _logging
+        _logging.disable(_logging.NOTSET)
+
     if ctx.broken and not ctx.violations:
         ctx.unproved('C31 model/proof', {'broken': ctx.broken[:5]})
 
@@ -1291,6 +1781,21 @@ def extra_checks(ctx, mpc, seclist, secindex, types):
                 sig = 'count-mod-char %s op=%s occurrences=%d' % (ti.name, bad['op'], st_before.count(bad['v']))
             ctx.violation(sig, {'type': ti.name, 'init': init, 'history': cops[:d + 1], 'first_bad_step': d,
                                 'list_before': st_before, 'impl': itr[d] if d < len(itr) else None, 'python_list': otr[d]})
+    # results on EMPTY lists: count/contains/==/!= return PUBLIC Python values (sum([]) = 0, all([]) = 1), the four order
+    # comparisons a secure 0/1; the values are Python's, and a result that is a function of the public lengths alone
+    # reveals nothing, so this is covered as an ordinary case (the type of each result is recorded)
+    Te = types[0].T
+    e1, e2 = seclist([], Te), seclist([], Te)
+    kinds = {}
+    for nm, r, want in (('==', e1 == e2, 1), ('!=', e1 != e2, 0), ('<', e1 < e2, 0), ('<=', e1 <= e2, 1), ('>', e1 > e2, 0),
+                        ('>=', e1 >= e2, 1), ('count', e1.count(0), 0), ('contains', e1.contains(0), 0), ('find', e1.find(0), -1)):
+        public = isinstance(r, (bool, int))
+        kinds[nm] = 'public ' + type(r).__name__ if public else 'secure'
+        val = int(r) if public else int(mpc.run(mpc.output(r)))
+        ctx.case('probe empty lists ' + nm, nontrivial=False, kind='probe')
+        if val != want:
+            ctx.violation('empty-lists %s' % nm, {'call': 'seclist([]) %s seclist([])' % nm, 'got': val, 'want': want})
+    ctx.extra['result_types_on_empty_lists'] = kinds
     # deterministic probes of the two characteristic-related defects and of secindex + secindex on secfxp
     F = ti.T
     s = seclist([7, 5, 9], F)
